@@ -139,8 +139,10 @@ run_ssrb_data(const shared_ptr<const ProjDataInfoCylindricalNoArcCorr>& in,
     DetectionPositionPair<> dp;
     Bin inbin;
     int w;
+    bool affected; // histogrammed into / destined for a "shifted" single-ring-difference segment (class of the known finding)
   };
   std::vector<Ev> evs;
+  std::map<std::array<int, 3>, Sinogram<float>> sinos_u; // the same data without the affected events
   long total_in = 0;
   for (int e = 0; e < nevents; ++e)
     {
@@ -171,7 +173,20 @@ run_ssrb_data(const shared_ptr<const ProjDataInfoCylindricalNoArcCorr>& in,
         it = sinos.insert(std::make_pair(key, din.get_empty_sinogram(b.axial_pos_num(), b.segment_num(), false, b.timing_pos_num()))).first;
       it->second[b.view_num()][b.tangential_pos_num()] += w;
       total_in += w;
-      evs.push_back({ dp, b, w });
+      bool affected = is_shifted_single_rd_segment(*in, b.segment_num());
+      {
+        Bin bo;
+        if (outinfo->get_bin_for_det_pos_pair(bo, dp) == Succeeded::yes && is_shifted_single_rd_segment(*outinfo, bo.segment_num()))
+          affected = true;
+      }
+      if (!affected)
+        {
+          auto iu = sinos_u.find(key);
+          if (iu == sinos_u.end())
+            iu = sinos_u.insert(std::make_pair(key, din.get_empty_sinogram(b.axial_pos_num(), b.segment_num(), false, b.timing_pos_num()))).first;
+          iu->second[b.view_num()][b.tangential_pos_num()] += w;
+        }
+      evs.push_back({ dp, b, w, affected });
     }
   for (auto& kv : sinos)
     din.set_sinogram(kv.second);
@@ -244,41 +259,85 @@ run_ssrb_data(const shared_ptr<const ProjDataInfoCylindricalNoArcCorr>& in,
           got_total += static_cast<long>(e.second);
         }
       ++oracle_checks;
-      const bool shifted = has_shifted_single_rd_segment(*in) || has_shifted_single_rd_segment(*outinfo);
+      auto first_difference = [](const std::map<BinKey, long>& ex, const std::map<BinKey, long>& gt) {
+        std::ostringstream m;
+        for (auto& kv : ex)
+          {
+            auto it = gt.find(kv.first);
+            if (it == gt.end() || it->second != kv.second)
+              {
+                m << "bin " << kv.first[0] << " " << kv.first[1] << " " << kv.first[2] << " " << kv.first[3] << " " << kv.first[4] << " expected " << kv.second
+                  << " got " << (it == gt.end() ? 0 : it->second);
+                return m.str();
+              }
+          }
+        for (auto& kv : gt)
+          if (!ex.count(kv.first))
+            {
+              m << "bin " << kv.first[0] << " " << kv.first[1] << " " << kv.first[2] << " " << kv.first[3] << " " << kv.first[4] << " expected 0 got " << kv.second;
+              return m.str();
+            }
+        return m.str();
+      };
+      const std::string where = "N=" + std::to_string(N) + " R=" + std::to_string(R) + " in{" + geom_str(*in) + "} out{" + geom_str(*outinfo)
+                                + "} kSeg=" + std::to_string(prm.kSeg) + " kView=" + std::to_string(prm.kView) + " trim=" + std::to_string(prm.trim)
+                                + " maxSeg=" + std::to_string(prm.maxSeg) + " kTof=" + std::to_string(prm.kTof);
       if (expect != got)
         {
-          // first difference
-          std::ostringstream m;
-          for (auto& kv : expect)
-            if (!got.count(kv.first) || got[kv.first] != kv.second)
-              {
-                m << "bin " << kv.first[0] << " " << kv.first[1] << " " << kv.first[2] << " " << kv.first[3] << " " << kv.first[4]
-                  << " expected " << kv.second << " got " << (got.count(kv.first) ? got[kv.first] : 0);
-                break;
-              }
-          if (m.str().empty())
-            for (auto& kv : got)
-              if (!expect.count(kv.first))
+          // Is the difference due to the events of the known class only?  SSRB is additive in the data: rebin the data WITHOUT the affected
+          // events; for those the statement is demanded without exception.
+          bool any_affected = false;
+          std::map<BinKey, long> expect_u, got_u;
+          for (auto& e : evs)
+            {
+              if (e.affected)
                 {
-                  m << "bin " << kv.first[0] << " " << kv.first[1] << " " << kv.first[2] << " " << kv.first[3] << " " << kv.first[4]
-                    << " expected 0 got " << kv.second;
-                  break;
+                  any_affected = true;
+                  continue;
                 }
-          if (shifted)
+              Bin b;
+              if (outinfo->get_bin_for_det_pos_pair(b, e.dp) != Succeeded::yes || !bin_in_range(*outinfo, b))
+                continue;
+              expect_u[BinKey{ b.segment_num(), b.view_num(), b.axial_pos_num(), b.tangential_pos_num(), b.timing_pos_num() }] += e.w;
+            }
+          bool unaffected_ok = any_affected;
+          if (any_affected)
+            {
+              ProjDataInMemory din_u(ei, in), dout_u(ei, outinfo);
+              for (auto& kv : sinos_u)
+                din_u.set_sinogram(kv.second);
+              SSRB(dout_u, din_u, false);
+              for (int sg = outinfo->get_min_segment_num(); sg <= outinfo->get_max_segment_num(); ++sg)
+                for (int a = outinfo->get_min_axial_pos_num(sg); a <= outinfo->get_max_axial_pos_num(sg); ++a)
+                  for (int t = outinfo->get_min_tof_pos_num(); t <= outinfo->get_max_tof_pos_num(); ++t)
+                    {
+                      const Sinogram<float> sino = dout_u.get_sinogram(a, sg, false, t);
+                      for (int v = sino.get_min_view_num(); v <= sino.get_max_view_num(); ++v)
+                        for (int tp = sino.get_min_tangential_pos_num(); tp <= sino.get_max_tangential_pos_num(); ++tp)
+                          if (sino[v][tp] != 0)
+                            got_u[BinKey{ sg, v, a, tp, t }] = static_cast<long>(sino[v][tp]);
+                    }
+              unaffected_ok = expect_u == got_u;
+            }
+          if (any_affected && unaffected_ok)
             {
               ++oracle_fails;
               if (known_hits++ == 0)
                 std::fprintf(orc,
-                             "KNOWN-CANDIDATE ssrb:single-ring-difference-segment-with-axial-positions-of-odd-parity SSRB of data whose input or output "
-                             "geometry has a segment holding ONE ring difference d with (d - ax_pos_num_offset) odd (e.g. 4 rings, span 3, max_delta 2, "
-                             "num_segments_to_combine 3; ProjDataInfoCylindrical only warns 'LORs shifted'): SSRB moves sinograms by get_m() while "
-                             "detector pairs are binned by truncating division, so histogram-then-SSRB differs from histogramming with the output geometry\n");
+                             "KNOWN-CANDIDATE ssrb:ringpairs:outermost-segment-clipped-to-single-ring-difference-of-odd-parity consequence of the C01 "
+                             "finding of the same name: a segment holding ONE ring difference d with (d - ax_pos_num_offset) odd (4 rings, span 3, "
+                             "max_delta 2: segment 1 = ring difference 2 with 3 axial positions at m = -1,0,1 ring spacings; the library only warns "
+                             "'LORs shifted') has no axial position at the m of its ring pairs; get_bin_for_det_pos_pair puts rings (0,2) "
+                             "(m = -0.5) into (segment 1, ax 0) whose get_m is -1, SSRB with num_segments_to_combine 3 moves that sinogram by get_m "
+                             "to output (segment 0, ax 1) while the output geometry assigns the pair to (segment 0, ax 2): histogram-then-SSRB "
+                             "differs from histogramming with the output geometry, counts end up half a ring spacing away; first case: %s: %s\n",
+                             where.c_str(), first_difference(expect, got).c_str());
             }
+          else if (any_affected)
+            oracle_fail("SSRB does not commute with detector-pair binning (data without the events of the known shifted-segment class): " + where
+                        + ": " + first_difference(expect_u, got_u));
           else
-            oracle_fail("SSRB does not commute with detector-pair binning: N=" + std::to_string(N) + " R=" + std::to_string(R) + " in{"
-                        + geom_str(*in) + "} out{" + geom_str(*outinfo) + "} kSeg=" + std::to_string(prm.kSeg) + " kView="
-                        + std::to_string(prm.kView) + " trim=" + std::to_string(prm.trim) + " maxSeg=" + std::to_string(prm.maxSeg)
-                        + " kTof=" + std::to_string(prm.kTof) + ": " + m.str());
+            oracle_fail("SSRB does not commute with detector-pair binning: " + where + ": " + first_difference(expect, got));
         }
       // (2) total counts conserved when no range is trimmed
       const bool seg_all = outinfo->get_min_ring_difference(outinfo->get_min_segment_num()) <= in->get_min_ring_difference(in->get_min_segment_num())
@@ -290,7 +349,7 @@ run_ssrb_data(const shared_ptr<const ProjDataInfoCylindricalNoArcCorr>& in,
                            || (outinfo->get_tof_mash_factor() > 0
                                && in->get_num_tof_poss() * in->get_tof_mash_factor() == outinfo->get_num_tof_poss() * outinfo->get_tof_mash_factor());
       ++oracle_checks;
-      if (seg_all && tang_all && tof_all && got_total != total_in && !shifted)
+      if (seg_all && tang_all && tof_all && got_total != total_in)
         oracle_fail("SSRB without trimming does not conserve the total: in=" + std::to_string(total_in) + " out=" + std::to_string(got_total)
                     + " in{" + geom_str(*in) + "} out{" + geom_str(*outinfo) + "}");
       ++oracle_checks;
@@ -317,7 +376,7 @@ run_ssrb_data(const shared_ptr<const ProjDataInfoCylindricalNoArcCorr>& in,
           bool k_ok = true;
           if (outinfo->get_tof_mash_factor() > 0 && in->get_tof_mash_factor() > 0)
             k_ok = std::fabs(outinfo->get_k(b) - in->get_k(e.inbin)) <= 0.5 * (outinfo->get_sampling_in_k(b) - in->get_sampling_in_k(e.inbin)) * 1.0001 + 1e-3;
-          if ((std::fabs(m_in - m_out) > 1e-3 && !shifted) || !phi_ok || !k_ok || !s_ok)
+          if ((std::fabs(m_in - m_out) > 1e-3 && !e.affected) || !phi_ok || !k_ok || !s_ok)
             oracle_fail("SSRB moves counts to another physical position: m " + std::to_string(m_in) + "->" + std::to_string(m_out) + " phi mean "
                         + std::to_string(phi_mean) + "->" + std::to_string(phi_out) + " k_ok=" + std::to_string(k_ok) + " in{" + geom_str(*in)
                         + "} out{" + geom_str(*outinfo) + "}");
